@@ -29,23 +29,29 @@ SHARDS = {"quick": 8, "thorough": 16}
 BUDGET = {"quick": 28.0, "thorough": 420.0}
 REQUIRE = {
     "render_steps_judged": 400,
+    "render_steps_judged:orderA": 150,
+    "render_steps_judged:orderB": 150,
     "render_steps_with_cache_hit": 150,
     "mutations_applied": 300,
     "rows_steps_judged": 10,
     "inner_rows_judged": 200,
     "ledger_canvases_verified": 3000,
     "gc_steps": 10,
+    "cache_clear_steps": 10,
+    "directed_cases": 150,
+    "mut:Text.set_layout": 5,
     "cache_cleanups": 100,
 }
 RULE = (
-    "histories (25 ops quick / 60 thorough) on generated widget trees (Text, Edit, IntEdit, CheckBox, Button, ProgressBar, "
+    "directed core: every mutator kind of every widget of 25 prototype trees, alone and under 4-5 standard parents (warm all "
+    "sizes x focus, one change, look again; and the variant with a render at another size in between), then random histories (25 ops quick / 60 thorough) on generated widget trees (Text, Edit, IntEdit, CheckBox, Button, ProgressBar, "
     "Divider, SelectableIcon, SolidFill; AttrMap, Padding, LineBox, BoxAdapter, WidgetPlaceholder, Filler, Scrollable; "
     "Pile, Columns, GridFlow, Frame, Overlay, ListBox with both simple walkers; depth<=3) of render/rows at 2-3 alternating "
     "sizes x both focus values, public mutators of a random widget in the tree (set_text, edit keys, set_edit_text/pos/"
-    "caption, set_state/toggle, set_label, set_completion, set_title, attr/focus maps, Padding align/width, BoxAdapter "
+    "caption, set_state/toggle, set_label, set_completion, set_layout (same or other align/wrap, standard or user-defined layout object), set_title, attr/focus maps, Padding align/width, BoxAdapter "
     "height, placeholder/decoration child swap, contents insert/append/assign/delete/swap, focus_position, Frame "
     "header/body/footer, Overlay parameters/top/bottom, walker insert/append/assign/delete, ListBox set_focus/"
-    "set_focus_valign, Scrollable.set_scrollpos), keypress / mouse press at the root, dropping held canvases + gc; "
+    "set_focus_valign, Scrollable.set_scrollpos), keypress / mouse press at the root, dropping held canvases + gc, CanvasCache.clear() in mid-history; "
     "distinct = distinct (mode, recipe, op list); non-trivial = at least one judged render step after a mutation"
 )
 ASSUMES = [
@@ -255,7 +261,7 @@ class History:
         self.ops_done.append(op)
         k = op[0]
         if k == "render":
-            self.render_step(self.sizes[op[1] % len(self.sizes)], bool(op[2]))
+            self.render_step(self.sizes[op[1] % len(self.sizes)], bool(op[2]), op[3] if len(op) > 3 else "A")
         elif k == "rows":
             self.rows_step(self.sizes[op[1] % len(self.sizes)], bool(op[2]))
         elif k == "mut":
@@ -290,14 +296,25 @@ class History:
             except Exception as e:  # noqa: BLE001
                 self.c("abandoned:mouse-raised")
                 raise Abandon(f"mouse_event raised {type(e).__name__}: {e}") from e
+        elif k == "clear":
+            # the application empties the cache itself (public CanvasCache.clear()); canvases handed out
+            # earlier stay alive in self.held, as on a screen
+            from urwid.canvas import CanvasCache as _CC
+
+            _CC.clear()
+            self.c("cache_clear_steps")
         elif k == "gc":
             rng = random.Random(op[1])
-            self.held = [c for c in self.held if rng.random() < 0.5]
+            if len(op) > 2 and op[2] == "keep-last":
+                # what a screen does: only the most recently drawn canvas stays referenced
+                self.held = self.held[-1:]
+            else:
+                self.held = [c for c in self.held if rng.random() < 0.5]
             gc.collect()
             self.c("gc_steps")
         else:
             raise AssertionError(op)
-        if k not in ("render", "gc") and op is not self.desc["ops"][-1:]:
+        if k not in ("render", "gc", "clear") and op is not self.desc["ops"][-1:]:
             return
         n, bad = self.ledger.verify(T.all_widgets(self.root))
         self.c("ledger_canvases_verified", n)
@@ -308,50 +325,72 @@ class History:
             self.found.append((f"C06|cached-canvas-modified:{what}|canvas-of={cls}|after={self.last_mut}", f"a canvas stored in the cache for {cls} changed ({what}) after op {op}"))
             self.ledger.reset()
 
-    def render_step(self, size, focus):
+    def render_step(self, size, focus, order="A"):
+        """order A: fresh, cached, fresh (the cached render sandwiched).  order B: cached first, then two
+        fresh renders.  A cannot see a change that left only *pending* state behind when the first fresh
+        render consumes it and invalidates (ListBox.set_focus_valign); B cannot tell a stale canvas from a
+        first render that legitimately differs from later ones, so in B a divergence counts only when a
+        widget's cached canvas really differs from its fresh render (culprit found)."""
         from urwid.canvas import CanvasCache as CC
 
         root = self.root
         mode = self.mode
-        try:
-            c0 = self.shadow(lambda: root.render(size, focus))
-            f0 = flat(c0, mode)
-        except Exception as e:  # noqa: BLE001
-            self.c("abandoned:fresh-render-raised")
-            raise Abandon(f"fresh render raised {type(e).__name__}: {e}") from e
+
+        def fresh(which):
+            try:
+                c = self.shadow(lambda: root.render(size, focus))
+                return flat(c, mode)
+            except Exception as e:  # noqa: BLE001
+                self.c("abandoned:fresh-render-raised")
+                raise Abandon(f"{which} fresh render raised {type(e).__name__}: {e}") from e
+
+        fa = fresh("first") if order == "A" else None
         hits0 = CC.hits
         try:
             c1 = root.render(size, focus)
             f1 = flat(c1, mode)
         except Exception as e:  # noqa: BLE001
-            self.found.append((f"C06|cached-render-raises:{type(e).__name__}|root={type(root).__name__}|after={self.last_mut}", f"render with the cache raised {type(e).__name__}: {e} but fresh render succeeded"))
-            raise Abandon("cached render raised") from e
+            if order == "A":
+                self.found.append((f"C06|cached-render-raises:{type(e).__name__}|root={type(root).__name__}|after={self.last_mut}", f"render with the cache raised {type(e).__name__}: {e} but fresh render succeeded"))
+                raise Abandon("cached render raised") from e
+            self.c("abandoned:render-raised")
+            raise Abandon(f"render raised {type(e).__name__}: {e}") from e
         hit = CC.hits > hits0
-        try:
-            c2 = self.shadow(lambda: root.render(size, focus))
-            f2 = flat(c2, mode)
-        except Exception as e:  # noqa: BLE001
-            self.c("abandoned:fresh-render-raised")
-            raise Abandon(f"second fresh render raised {type(e).__name__}: {e}") from e
+        snapshot = None
+        if order != "A":
+            # what the cache held when the cached render was answered (the fresh renders below may invalidate it)
+            snapshot = {}
+            for w in T.walk(root):
+                ent = CC._widgets.get(w)
+                if ent:
+                    snapshot[id(w)] = [(k, ref()) for k, ref in ent.items() if ref() is not None]
+        fb = fresh("second")
+        if order != "A":
+            fa, fb = fb, fresh("third")
         self.held.append(c1)
         if not c1.widget_info:
             self.found.append((f"C06|render-returned-unfinalized-canvas|{type(root).__name__}", "canvas handed out is not finalized"))
-        if f0 != f2:
+        if fa != fb:
             self.c("render_steps_not_idempotent")
             return
         self.c("render_steps_judged")
+        self.c(f"render_steps_judged:order{order}")
         if hit:
             self.c("render_steps_with_cache_hit")
         if self.last_mut is not None:
             self.judged_after_mut = True
-        if f1 != f0:
-            culprit = self.culprit()
-            d = G.first_diff(f1[2], f0[2]) if f1[:2] == f0[:2] else None
-            what = "size" if f1[:2] != f0[:2] else ("cursor" if f1[2] == f0[2] else f"cell:{G.diff_kind(d)}")
+        if f1 != fa:
+            culprit = self.culprit(snapshot)
+            if order != "A" and (culprit == "none-found" or not hit):
+                # nothing cached is stale: the first render simply differs from the following ones
+                self.c("orderB_first_render_differs_without_stale_canvas")
+                return
+            d = G.first_diff(f1[2], fa[2]) if f1[:2] == fa[:2] else None
+            what = "size" if f1[:2] != fa[:2] else ("cursor" if f1[2] == fa[2] else f"cell:{G.diff_kind(d)}")
             self.found.append(
                 (
                     f"C06|stale|culprit={culprit}|after={self.last_mut}|{what}",
-                    f"render{size!r} focus={focus}: cached result differs from fresh ({what}); first diff {d}; cached cursor {f1[3]} fresh cursor {f0[3]}",
+                    f"render{size!r} focus={focus} (order {order}): cached result differs from fresh ({what}); first diff {d}; cached cursor {f1[3]} fresh cursor {fa[3]}",
                 )
             )
 
@@ -403,8 +442,9 @@ class History:
         if r1 != r0:
             self.found.append((f"C06|stale-rows|culprit={self.culprit()}|after={self.last_mut}", f"rows{size!r} focus={focus}: cached {r1} fresh {r0}"))
 
-    def culprit(self):
-        """class of the deepest widget whose cached canvas differs from its fresh render"""
+    def culprit(self, snapshot=None):
+        """class of the deepest widget whose cached canvas differs from its fresh render
+        (snapshot: {id(widget): [(key, canvas)]} taken earlier, else the live cache)"""
         from urwid.canvas import CanvasCache as CC
 
         depth = {}
@@ -417,11 +457,12 @@ class History:
         walk(self.root, 0)
         best = None
         for _, (d, w) in sorted(depth.items(), key=lambda kv: -kv[1][0]):
-            entries = CC._widgets.get(w, None)
-            if not entries:
-                continue
-            for (wcls, size, focus), ref in list(entries.items()):
-                canv = ref()
+            if snapshot is not None:
+                entries_list = snapshot.get(id(w), [])
+            else:
+                entries = CC._widgets.get(w, None)
+                entries_list = [(k, ref()) for k, ref in entries.items()] if entries else []
+            for (wcls, size, focus), canv in entries_list:
                 if canv is None:
                     continue
                 try:
@@ -480,16 +521,21 @@ def gen_history(ctx, rng, mode, nops):
                         emit(["mut", idx, m])
                     elif r < 0.83:
                         emit(["key", rng.randrange(len(sizes)), rng.choice(KEYS)])
-                    elif r < 0.92:
+                    elif r < 0.90:
                         emit(["mouse", rng.randrange(len(sizes)), rng.randint(0, 40), rng.randint(0, 12), rng.choice([1, 1, 4, 5])])
+                    elif r < 0.95:
+                        # empty the cache, look again (new entries under old keys), then let old canvases die
+                        emit(["clear"])
+                        emit(["render", rng.randrange(len(sizes)), int(rng.random() < 0.65)])
+                        emit(["gc", rng.randint(0, 10**6), "keep-last"])
                     else:
-                        emit(["gc", rng.randint(0, 10**6)])
+                        emit(["gc", rng.randint(0, 10**6), rng.choice(["keep-last", "random"])])
                     n += 1
                 # ... then look: mostly at a (size, focus) rendered before
                 if rng.random() < 0.2:
                     emit(["rows", rng.randrange(len(sizes)), int(rng.random() < 0.5)])
                 for _ in range(rng.randint(1, 2)):
-                    emit(["render", rng.randrange(len(sizes)), int(rng.random() < 0.65)])
+                    emit(["render", rng.randrange(len(sizes)), int(rng.random() < 0.65), rng.choice("AB")])
                     n += 1
     except Abandon:
         pass
@@ -542,6 +588,142 @@ def shrink(ctx, desc, sig):
     return cur, res
 
 
+# ---------------------------------------------------------------- directed core (runs first in every shard)
+
+PROTOTYPES = {
+    "flow": [
+        {"t": "Text", "text": "alpha beta gamma delta", "align": "left", "wrap": "space"},
+        {"t": "Edit", "caption": "c:", "text": "alpha 漢字 kanji lorem", "multiline": False, "align": "left", "wrap": "clip", "pos": 3},
+        {"t": "Edit", "caption": "", "text": "one two three four five", "multiline": True, "align": "right", "wrap": "space", "pos": 9},
+        {"t": "IntEdit", "caption": "n=", "val": 123},
+        {"t": "CheckBox", "label": "check me", "state": False},
+        {"t": "Button", "label": "cancel"},
+        {"t": "ProgressBar", "cur": 40},
+        {"t": "SelectableIcon", "text": "icon", "cpos": 1},
+        {"t": "NoCacheText", "text": "no cache text here"},
+        {"t": "AttrMap", "w": {"t": "Text", "text": "mapped", "align": "left", "wrap": "space"}, "am": "a", "fm": "b"},
+        {"t": "Padding", "w": {"t": "Text", "text": "padded text", "align": "left", "wrap": "space"}, "align": "left", "width": 8, "left": 1, "right": 1},
+        {"t": "LineBox", "w": {"t": "Text", "text": "boxed", "align": "left", "wrap": "space"}, "title": "T"},
+        {"t": "BoxAdapter", "w": {"t": "Filler", "w": {"t": "Text", "text": "fill", "align": "left", "wrap": "space"}, "valign": "top"}, "h": 3},
+        {"t": "WidgetPlaceholder", "w": {"t": "Text", "text": "placeholder", "align": "left", "wrap": "space"}},
+        {"t": "Pile", "items": [["pack", None, {"t": "Text", "text": "p0", "align": "left", "wrap": "space"}], ["pack", None, {"t": "Edit", "caption": "", "text": "p1", "multiline": False, "align": "left", "wrap": "space", "pos": 1}], ["pack", None, {"t": "CheckBox", "label": "p2", "state": True}]], "focus": 1},
+        {"t": "Columns", "items": [["weight", 1, {"t": "Text", "text": "c0", "align": "left", "wrap": "space"}], ["given", 6, {"t": "Edit", "caption": "", "text": "c1", "multiline": False, "align": "left", "wrap": "space", "pos": 0}], ["pack", None, {"t": "Text", "text": "pack", "align": "left", "wrap": "space"}]], "div": 1, "focus": 1, "min_width": 1},
+        {"t": "Columns", "items": [["given", 9, {"t": "Text", "text": "given nine", "align": "left", "wrap": "clip"}], ["pack", None, {"t": "Text", "text": "0123456789012345678901234567", "align": "left", "wrap": "space"}], ["weight", 2, {"t": "Text", "text": "w", "align": "left", "wrap": "space"}]], "div": 0, "focus": 0, "min_width": 2},
+        {"t": "GridFlow", "cells": [{"t": "Button", "label": "ok"}, {"t": "Text", "text": "cell", "align": "left", "wrap": "space"}, {"t": "CheckBox", "label": "g", "state": False}], "cw": 7, "hs": 1, "vs": 0, "align": "left"},
+    ],
+    "box": [
+        {"t": "Filler", "w": {"t": "Text", "text": "filled", "align": "left", "wrap": "space"}, "valign": "middle"},
+        {"t": "ListBox", "items": [{"t": "Text", "text": "l0", "align": "left", "wrap": "space"}, {"t": "Edit", "caption": "", "text": "l1 edit", "multiline": False, "align": "left", "wrap": "space", "pos": 2}, {"t": "CheckBox", "label": "l2", "state": False}, {"t": "Text", "text": "l3\nl3b\nl3c", "align": "left", "wrap": "space"}, {"t": "Button", "label": "l4"}], "walker": "focus", "focus": 1},
+        {"t": "ListBox", "items": [{"t": "Text", "text": "s0", "align": "left", "wrap": "space"}, {"t": "Button", "label": "s1"}, {"t": "Text", "text": "s2", "align": "left", "wrap": "space"}], "walker": "simple", "focus": 1},
+        {"t": "ListBox", "items": [{"t": "Text", "text": f"r{i}", "align": "left", "wrap": "space"} if i % 3 else {"t": "Button", "label": f"r{i}"} for i in range(12)], "walker": "focus", "focus": 6},
+        {"t": "Frame", "body": {"t": "Filler", "w": {"t": "Edit", "caption": "", "text": "body", "multiline": False, "align": "left", "wrap": "space", "pos": 0}, "valign": "top"}, "header": {"t": "Text", "text": "head", "align": "left", "wrap": "space"}, "footer": {"t": "Edit", "caption": "", "text": "foot", "multiline": False, "align": "left", "wrap": "space", "pos": 0}, "focus": "body"},
+        {"t": "Overlay", "top": {"t": "Text", "text": "over lay", "align": "left", "wrap": "space"}, "bottom": {"t": "SolidFill", "ch": "."}, "align": "center", "width": 6, "valign": "middle", "height": "pack"},
+        {"t": "Scrollable", "w": {"t": "Text", "text": "s0\ns1\ns2\ns3\ns4\ns5\ns6\ns7", "align": "left", "wrap": "space"}, "pos": 3},
+        {"t": "Pile", "items": [["weight", 1, {"t": "SolidFill", "ch": "#"}], ["pack", None, {"t": "Edit", "caption": "", "text": "pe", "multiline": False, "align": "left", "wrap": "space", "pos": 0}], ["weight", 2, {"t": "Filler", "w": {"t": "Text", "text": "pf", "align": "left", "wrap": "space"}, "valign": "top"}]], "focus": 1},
+    ],
+}
+
+
+def wrappers(kind, proto):
+    """the prototype alone and inside a few standard parents (recipe, kind of the result)"""
+    txt = {"t": "Text", "text": "sibling", "align": "left", "wrap": "space"}
+    out = [(proto, kind)]
+    if kind == "flow":
+        out.append(({"t": "Pile", "items": [["pack", None, txt], ["pack", None, proto]], "focus": 1}, "flow"))
+        out.append(({"t": "Columns", "items": [["weight", 1, proto], ["given", 4, txt]], "div": 1, "focus": 0, "min_width": 1}, "flow"))
+        out.append(({"t": "LineBox", "w": {"t": "AttrMap", "w": proto, "am": None, "fm": "hi"}, "title": ""}, "flow"))
+        out.append(({"t": "ListBox", "items": [txt, proto, txt], "walker": "focus", "focus": 1}, "box"))
+        out.append(({"t": "Frame", "body": {"t": "Filler", "w": proto, "valign": "top"}, "header": txt, "footer": None, "focus": "body"}, "box"))
+    else:
+        out.append(({"t": "Frame", "body": proto, "header": txt, "footer": txt, "focus": "body"}, "box"))
+        out.append(({"t": "Pile", "items": [["pack", None, txt], ["weight", 1, proto]], "focus": 1}, "box"))
+        out.append(({"t": "LineBox", "w": proto, "title": "t"}, "box"))
+        out.append(({"t": "BoxAdapter", "w": proto, "h": 5}, "flow"))
+    return out
+
+
+def directed_cases(mode, quick=False, seed=0):
+    """every (prototype, wrapper, widget of the prototype, mutator kind): warm all sizes x focus, mutate once, look again"""
+    import warnings as _w
+
+    cases = []
+    for kind, protos in PROTOTYPES.items():
+        for proto in protos:
+            wr = wrappers(kind, proto)
+            if quick:
+                # the prototype alone + one parent shape, rotating with the seed
+                wr = [wr[0], wr[1 + (seed + len(cases)) % (len(wr) - 1)]]
+            for recipe, rkind in wr:
+                sizes = [[14], [22]] if rkind == "flow" else [[14, 5], [22, 8]]
+                with _w.catch_warnings():
+                    _w.simplefilter("ignore")
+                    try:
+                        root = T.build(recipe)
+                    except Exception:  # noqa: BLE001
+                        continue
+                ws = T.walk(root)
+                seen = set()
+                for idx, wd in enumerate(ws):
+                    for trial in range(60):
+                        m = T.propose(random.Random(f"{trial}:{idx}"), wd)
+                        if m is None or m[0] == "child_mutation":
+                            continue
+                        key = (idx, m[0], json.dumps(m[1:2]))
+                        if key in seen:
+                            continue
+                        if quick and sum(1 for k2 in seen if k2[:2] == key[:2]) >= 2:
+                            continue
+                        seen.add(key)
+                        warm = [["render", 0, 1], ["render", 0, 0], ["render", 1, 1]]
+                        if len(seen) % 3 == 0:
+                            # a render at the other size between the change and the look (state set by render)
+                            ops = [warm[0], ["mut", idx, m], warm[2], warm[0], warm[1]]
+                        else:
+                            ops = [*warm, ["mut", idx, m], *warm, ["rows", 0, 0]]
+                        if len(seen) % 2:
+                            # look in order B: cached render first (sees changes that only left pending state)
+                            k_mut = next(i for i, o in enumerate(ops) if o[0] == "mut")
+                            ops = ops[: k_mut + 1] + [[*o, "B"] if o[0] == "render" else o for o in ops[k_mut + 1 :]]
+                        cases.append({"mode": mode, "kind": rkind, "recipe": recipe, "sizes": sizes, "ops": ops})
+    return cases
+
+
+def regression_cases(mode):
+    """hand-written histories for the mechanisms behind the defects found so far (each was a real bug once)"""
+    T_ = lambda s, **k: {"t": "Text", "text": s, "align": k.get("align", "left"), "wrap": k.get("wrap", "space")}  # noqa: E731
+    E_ = lambda cap, s, **k: {"t": "Edit", "caption": cap, "text": s, "multiline": False, "align": k.get("align", "left"), "wrap": k.get("wrap", "clip"), "pos": k.get("pos")}  # noqa: E731
+    out = []
+    # hidden PACK column (explicit width 0 and dropped from the width list), then the text shrinks
+    cols = {"t": "Columns", "items": [["given", 9, T_("given nine", wrap="clip")], ["pack", None, T_("0123456789012345678901234567")], ["weight", 2, T_("w")]], "div": 0, "focus": 0, "min_width": 2}
+    for size in ([11], [18]):
+        out.append({"mode": mode, "kind": "flow", "recipe": cols, "sizes": [size, [30]], "ops": [["render", 0, 0], ["render", 0, 1], ["mut", 2, ["set_text", "be"]], ["render", 0, 0], ["render", 0, 1]]})
+    cols2 = {"t": "Columns", "items": [["pack", None, T_("0123456789012345678901234567")], ["weight", 3, {"t": "Divider", "ch": "-"}], ["weight", 3, T_("x")]], "div": 0, "focus": 2, "min_width": 2}
+    out.append({"mode": mode, "kind": "flow", "recipe": cols2, "sizes": [[18]], "ops": [["render", 0, 0], ["mut", 1, ["set_text", "be"]], ["render", 0, 0]]})
+    # ListBox alignment request on a list shorter than the box
+    lb = {"t": "ListBox", "items": [T_(f"s{i}") if i != 4 else {"t": "Button", "label": "s4"} for i in range(9)], "walker": "simple", "focus": 4}
+    for v in ("bottom", "top", "middle"):
+        out.append({"mode": mode, "kind": "box", "recipe": lb, "sizes": [[14, 4]], "ops": [["render", 0, 1], ["mut", 0, ["lb_valign", v]], ["render", 0, 1]]})
+    # Edit rendered in one focus state, then the other, cursor beyond the clipped width
+    ed = E_("c:", "alpha 漢字 kanji lorem", pos=18)
+    out.append({"mode": mode, "kind": "flow", "recipe": ed, "sizes": [[8]], "ops": [["render", 0, 0], ["render", 0, 1], ["render", 0, 0]]})
+    out.append({"mode": mode, "kind": "flow", "recipe": ed, "sizes": [[8]], "ops": [["render", 0, 1], ["render", 0, 0], ["render", 0, 1]]})
+    # Scrollable position clamped by a render at another size
+    sc = {"t": "Scrollable", "w": {"t": "BoxAdapter", "w": {"t": "Filler", "w": T_("f"), "valign": "top"}, "h": 4}, "pos": 3}
+    out.append({"mode": mode, "kind": "box", "recipe": sc, "sizes": [[11, 3], [18, 8]], "ops": [["render", 0, 1], ["render", 1, 1], ["render", 0, 1]]})
+    # uncacheable descendant: the parent must not be cached without dependency edges
+    nc = {"t": "Pile", "items": [["pack", None, {"t": "LineBox", "w": T_("top"), "title": ""}], ["pack", None, {"t": "NoCacheText", "text": "0123456789012345678901234567"}]], "focus": 0}
+    out.append({"mode": mode, "kind": "flow", "recipe": nc, "sizes": [[30], [12]], "ops": [["render", 0, 1], ["render", 1, 1], ["gc", 1], ["render", 0, 1], ["mut", 3, ["set_align_mode", "center"]], ["render", 0, 1], ["render", 1, 1]]})
+    # cache emptied by the application, old canvases die later, then a change below a re-cached ancestor
+    fl = {"t": "Filler", "w": T_("one"), "valign": "top"}
+    for seed in range(6):
+        out.append({"mode": mode, "kind": "box", "recipe": fl, "sizes": [[10, 3], [10, 4]], "ops": [["render", 0, 0], ["clear"], ["render", 1, 0], (["gc", seed, "keep-last"] if seed % 2 else ["gc", seed]), ["mut", 1, ["set_text", "two"]], ["render", 1, 0], ["render", 0, 0]]})
+    both = []
+    for d in out:
+        both.append(d)
+        both.append(dict(d, ops=[[*o, "B"] if o[0] == "render" else o for o in d["ops"]]))
+    return both
+
+
 def set_mode(mode):
     import urwid
 
@@ -562,6 +744,27 @@ def run(ctx):
     k = 0
     cleanups0 = CC.cleanups
     try:
+        # ---- directed core: every mutator kind of every prototype widget, alone and under standard parents
+        set_mode("utf8")
+        dcases = regression_cases("utf8") + directed_cases("utf8", quick=ctx.quick, seed=ctx.seed)
+        ctx.extra["directed_cases_total"] = len(dcases)
+        done_all = True
+        for i, desc in enumerate(dcases):
+            if not ctx.mine(i):
+                continue
+            if not ctx.more(0.45):
+                done_all = False
+                break
+            h = execute(ctx, desc, count=True)
+            ctx.case(("directed", i), nontrivial=True)
+            ctx.count("directed_cases")
+            for sig, msg in h.found:
+                small, res = shrink(ctx, desc, sig)
+                if res is not None:
+                    sig, msg = res
+                ctx.violation(sig, msg, small if res is not None else desc)
+        ctx.count("directed_shards_complete", int(done_all))
+        # ---- random histories
         while ctx.more(1.0):
             mode = ("utf8", "utf8", "wide", "narrow")[k % 4]
             set_mode(mode)
